@@ -17,8 +17,8 @@
                    `type_unit_header_roundtrip` (v4 `.debug_types`), `tiling`, `tiling_unit`,
                    `tiling_type_unit`
     * references : `ref_unit_relative`, `ref_section_relative` (DW_FORM_ref_addr through C13's unit lookup),
-                   `ref_sig8_partial`, `ref_sig8_debug_types` (`.debug_types`, whole-section scan included; the
-                   DWARF 5 half is a known finding)
+                   `ref_sig8_units`, `ref_sig8_absent`, `ref_sig8_debug_types`, `ref_sig8_debug_info_v5`
+                   (whole-section scans included; the DWARF 5 half after the fix for sig8-v5-type-unit)
     * sections   : `debug_info_exact`, `debug_types_exact` — END TO END: for every well-formed forest description
                    (Spec/DieSection `Forest`, `wfForestB`) the model of `iter_CUs()` / `iter_TUs()` + `iter_DIEs()`
                    on the Spec encoding of `.debug_info` / `.debug_types` / `.debug_abbrev` (+ string / address /
@@ -35,8 +35,8 @@
   Ties (Props/TieC04): struct fields (`dwarf_fields`, `dwarf_fields_for`, `gen_bundles`), `enum_ok`, `enum_forms`,
   `raw2name_forms`, `enum_ut`, `base_names`, `form_ref_entry`, `form_extra_keys`.
   Correspondence-only (model ↔ code checked by the harness on every run, no theorem):
-    * signature references to DWARF 5 type units: FALSE of the code, KNOWN FINDING (known_findings.json:
-      sig8-v5-type-unit);
+    * signature references under a scan that raises (malformed unit in either section): the model re-raises the
+      scan's exception (`sigUnits`), compared with the code only;
     * the driver answers DW_FORM_ref_addr queries with a linear search over the scanned units (`Driver.C04.sectionRef`);
       `refs_info_exact` is about C13's model of `get_CU_containing` (bisect over the unit cache, any reachable cache
       state).  Both are compared with the code; that they agree with each other is not stated;
@@ -500,21 +500,29 @@ theorem ref_section_relative (enumDecode : String → Int → Option String)
 /-! ### signature references -/
 
 /--
-  ref_sig8_partial.  Full statement (the property's clause): a DW_FORM_ref_sig8 value resolves to the
+  ref_sig8_units (was `ref_sig8_partial`).  The property's clause: a DW_FORM_ref_sig8 value resolves to the
   entry at the type_offset of the type unit carrying that signature — in `.debug_types` (DWARF 4) or,
-  for DWARF 5, a DW_UT_type / DW_UT_split_type unit of `.debug_info`.  The DWARF 5 half is FALSE of the
-  code (`get_DIE_by_sig8` scans `.debug_types` only: KeyError) — known finding `sig8-v5-type-unit`,
-  recorded, not repaired.  Proved: the `.debug_types` half, on the unit list `_parse_debug_types` built
-  (`units`, scan completed): if the last unit carrying the signature is `cu` with context `U`, and the
-  entry `d` of that unit lies at `cu_offset + type_offset`, `get_DIE_by_sig8` returns `d` of that unit.
-  (That `units` is the list of encoded type units is `type_unit_header_roundtrip` unit by unit; the
-  chain over a whole `.debug_types` is not stated.)
+  for DWARF 5, a DW_UT_type / DW_UT_split_type unit of `.debug_info`.  This is the statement over the unit list
+  `_parse_debug_types` built (`units`, scan completed), for either kind of unit (`unitSig`: `signature` in a
+  `Dwarf_TU_header`, `type_signature` in a `Dwarf_CU_header`): if the last unit carrying the signature is `cu`
+  with context `U`, and the entry `d` of that unit lies at `cu_offset + type_offset`, `get_DIE_by_sig8` returns
+  `d` of that unit.  That `units` IS the list of encoded type units of both sections, with no hypothesis left, is
+  `ref_sig8_debug_types` (DWARF 4 half) and `ref_sig8_debug_info_v5` (DWARF 5 half, after the fix for the former
+  known finding `sig8-v5-type-unit`: `get_DIE_by_sig8` scanned `.debug_types` only and raised KeyError).
 -/
-theorem ref_sig8_partial (pre post : List (Model.Lookup.CU × R UnitCtx)) (cu : Model.Lookup.CU) (U : UnitCtx) (sig : Int)
-    (to : Nat) (hsig : cu.header.getInt "signature" = .ok sig)
-    (hlast : ∀ p ∈ post, p.1.header.getInt "signature" ≠ .ok sig) (hto : cu.header.getNat "type_offset" = .ok to)
+theorem ref_sig8_units (pre post : List (Model.Lookup.CU × R UnitCtx)) (cu : Model.Lookup.CU) (U : UnitCtx) (sig : Int)
+    (to : Nat) (hsig : unitSig cu.header = .ok sig)
+    (hlast : ∀ p ∈ post, unitSig p.1.header ≠ .ok sig) (hto : cu.header.getNat "type_offset" = .ok to)
     (l : List DieObs) (hcov : Covered (getCachedDIE U) l) (d : DieObs) (hd : d ∈ l) (hdx : d.offset = cu.cuOffset + to) :
     dieBySig8 getCachedDIE (pre ++ (cu, .ok U) :: post) none sig = .ok (cu.cuOffset, d) := by
+  have hG := hcov d hd
+  rw [hdx] at hG
+  exact dieBySig8_last getCachedDIE pre post cu U sig to hsig hlast hto d hG
+
+/-- a signature no scanned unit carries: `KeyError` (the scan having completed) -/
+theorem ref_sig8_absent (G : UnitCtx → Nat → R DieObs) (units : List (Model.Lookup.CU × R UnitCtx)) (sig : Int)
+    (hno : ∀ p ∈ units, unitSig p.1.header ≠ .ok sig) :
+    dieBySig8 G units none sig = .error .keyError := by
   have hfold : ∀ (f : Option (Model.Lookup.CU × R UnitCtx) → Model.Lookup.CU × R UnitCtx → Option (Model.Lookup.CU × R UnitCtx))
       (ps : List (Model.Lookup.CU × R UnitCtx)) (acc : Option (Model.Lookup.CU × R UnitCtx)),
       (∀ acc p, p ∈ ps → f acc p = acc) → ps.foldl f acc = acc := by
@@ -525,20 +533,17 @@ theorem ref_sig8_partial (pre post : List (Model.Lookup.CU × R UnitCtx)) (cu : 
       intro acc h
       rw [List.foldl_cons, h acc p (by simp)]
       exact ih acc (fun a q hq => h a q (by simp [hq]))
-  have hG := hcov d hd
-  rw [hdx] at hG
   unfold dieBySig8
-  simp only [bind, Except.bind, pure, Except.pure, List.foldl_append, List.foldl_cons, hsig, if_true]
-  rw [hfold _ post _ (fun acc p hp => by
+  simp only [bind, Except.bind, pure, Except.pure]
+  rw [hfold _ units _ (fun acc p hp => by
     obtain ⟨cu', rU'⟩ := p
-    have hne := hlast _ hp
+    have hne := hno _ hp
     simp only at hne ⊢
-    cases hg : cu'.header.getInt "signature" with
+    cases hg : unitSig cu'.header with
     | error e => rfl
     | ok s =>
       have : ¬ s = sig := fun e => hne (by rw [hg, e])
       simp [this])]
-  simp only [hto, hG]
 
 /-! ### whole sections, end to end -/
 
@@ -727,18 +732,39 @@ theorem debug_info_exact_spec (F : Forest) (dasz : Nat) (hwf : wfForestB genName
   whole section into the unit list (`sectionUnits`, discharged by `debug_types_units`), the map keyed
   by signature keeps the LAST unit carrying `sig` (`hsplit`, `hlast`: for the unique signatures DWARF prescribes,
   `post` has none) — returns the entry `d` of that unit lying at `tu_offset + type_offset`, together with the
-  unit's offset.  (`ref_sig8_partial` above is this with the unit list as a hypothesis.  The DWARF 5 half of
-  the clause — type units in `.debug_info` — stays the known finding `sig8-v5-type-unit`.)
+  unit's offset.  (`ref_sig8_units` above is this with the unit list as a hypothesis.)  `hinfo`: no DWARF 5 type
+  unit of `.debug_info` carries the same signature — `_parse_debug_types` enters those after the units of
+  `.debug_types`, so such a unit would be the one the map keeps (`ref_sig8_debug_info_v5`).
 -/
 theorem ref_sig8_debug_types (F : Forest) (dasz : Nat) (hdasz : dasz = 4 ∨ dasz = 8) (hwf : wfForestB genNames F = true)
     (G : UnitCtx → Nat → R DieObs) (hG : ∀ U o, U.cuDieOffset ≤ o → G U o = getCachedDIE U o)
     (pre post : List (Nat × UnitDesc)) (p : Nat × UnitDesc) (hsplit : placeTypes F 0 F.tus = pre ++ p :: post)
-    (hlast : ∀ q ∈ post, q.2.id8 ≠ p.2.id8) (d : DieObs)
+    (hlast : ∀ q ∈ post, q.2.id8 ≠ p.2.id8)
+    (hinfo : ∀ q ∈ placeInfo F 0 F.units, q.2.isTypeV5 = true → q.2.id8 ≠ p.2.id8) (d : DieObs)
     (hd : d ∈ flattenUnit genNames (p.2.cfg F.le) (unitRho F p.2) (unitRho F p.2) (typesDieOff F p.1 p.2) p.2.tree)
     (hdx : d.offset = p.1 + p.2.typeOff) :
     sig8Lookup G (forestDInfo F dasz) (genBundles F.le dasz).S0 (p.2.id8 : Int) = .ok (p.1, d) :=
   sig8_forest registry_gen F dasz (genBundles_ok F.le dasz hdasz) (wfForest_of_B genNames F hwf) G hG pre post p hsplit
-    hlast d hd hdx
+    hlast hinfo d hd hdx
+
+/--
+  ref_sig8_debug_info_v5.  The DWARF 5 half of the signature clause, no hypothesis about the scan:
+  `get_DIE_by_sig8(sig)` on the encoded sections of a well-formed forest, for the signature of a type unit `p`
+  (DW_UT_type / DW_UT_split_type, version 5) placed anywhere in `.debug_info` — `_parse_debug_types` walks
+  `.debug_types` (whatever it holds, same signature included) and then every unit of `.debug_info`, entering the
+  type units among them; the LAST one carrying `sig` is kept (`hsplit`, `hlast`) — returns the entry `d` of that
+  unit lying at `cu_offset + type_offset`, together with the unit's offset.  Before the fix for
+  `sig8-v5-type-unit` the code answered KeyError here.
+-/
+theorem ref_sig8_debug_info_v5 (F : Forest) (dasz : Nat) (hdasz : dasz = 4 ∨ dasz = 8) (hwf : wfForestB genNames F = true)
+    (G : UnitCtx → Nat → R DieObs) (hG : ∀ U o, U.cuDieOffset ≤ o → G U o = getCachedDIE U o)
+    (pre post : List (Nat × UnitDesc)) (p : Nat × UnitDesc) (hsplit : placeInfo F 0 F.units = pre ++ p :: post)
+    (hty : p.2.isTypeV5 = true) (hlast : ∀ q ∈ post, q.2.isTypeV5 = true → q.2.id8 ≠ p.2.id8) (d : DieObs)
+    (hd : d ∈ flattenUnit genNames (p.2.cfg F.le) (unitRho F p.2) (unitRho F p.2) (infoDieOff F p.1 p.2) p.2.tree)
+    (hdx : d.offset = p.1 + p.2.typeOff) :
+    sig8Lookup G (forestDInfo F dasz) (genBundles F.le dasz).S0 (p.2.id8 : Int) = .ok (p.1, d) :=
+  sig8_forest_info registry_gen F dasz (genBundles_ok F.le dasz hdasz) (wfForest_of_B genNames F hwf) G hG pre post p
+    hsplit hty hlast d hd hdx
 
 /--
   refs_info_exact.  Unit-relative and section-relative references at the level of whole sections, no hypothesis
@@ -957,7 +983,25 @@ example : ∃ d : DieObs, d.offset = 26 ∧ d.code = 7 ∧
   have hmem : (flattenUnit genNames ((exForest.tus[0]).cfg true) (unitRho exForest exForest.tus[0])
       (unitRho exForest exForest.tus[0]) 23 exTree3)[1]'(by decide +kernel) ∈ _ := List.getElem_mem _
   exact ⟨_, by decide +kernel, by decide +kernel,
-    ref_sig8_debug_types exForest 4 (Or.inl rfl) exForest_wf fetch fetch_agrees [] [] (0, exForest.tus[0]) rfl (by simp) _ hmem
+    ref_sig8_debug_types exForest 4 (Or.inl rfl) exForest_wf fetch fetch_agrees [] [] (0, exForest.tus[0]) rfl (by simp)
+      (by decide +kernel) _ hmem (by decide +kernel)⟩
+
+theorem exForest_place : placeInfo exForest 0 exForest.units
+    = [(0, exForest.units[0])] ++ (35, exForest.units[1]) :: [(90, exForest.units[2])] := by
+  have h1 : 0 + Spec.Lookup.unitSize exForest.le (infoUnitOf exForest exForest.units[0]) = 35 := by decide +kernel
+  have h2 : 35 + Spec.Lookup.unitSize exForest.le (infoUnitOf exForest exForest.units[1]) = 90 := by decide +kernel
+  show placeInfo exForest 0 [exForest.units[0], exForest.units[1], exForest.units[2]] = _
+  simp only [placeInfo, h1, h2, List.singleton_append]
+
+/-- `ref_sig8_debug_info_v5`: signature 0x1122334455667788 resolves to the entry at offset 78 = 35 + 43 of the
+    DWARF 5 split type unit placed at offset 35 of `.debug_info` (between a DWARF 4 and a DWARF 2 unit) -/
+example : ∃ d : DieObs, d.offset = 78 ∧ d.code = 7 ∧
+    sig8Lookup fetch (forestDInfo exForest 4) (genBundles true 4).S0 0x1122334455667788 = .ok (35, d) := by
+  have hmem : (flattenUnit genNames ((exForest.units[1]).cfg true) (unitRho exForest exForest.units[1])
+      (unitRho exForest exForest.units[1]) 75 exTree3)[1]'(by decide +kernel) ∈ _ := List.getElem_mem _
+  exact ⟨_, by decide +kernel, by decide +kernel,
+    ref_sig8_debug_info_v5 exForest 4 (Or.inl rfl) exForest_wf fetch fetch_agrees [(0, exForest.units[0])]
+      [(90, exForest.units[2])] (35, exForest.units[1]) exForest_place (by decide +kernel) (by decide +kernel) _ hmem
       (by decide +kernel)⟩
 
 end PyElf.Props.C04
